@@ -359,7 +359,8 @@ def oracle(case):
 			pt = {k: v.decode('ascii') for k, v in p.items() if isinstance(v, bytes)}
 		except UnicodeDecodeError:
 			pt = None
-		if pt is not None and len(pt) == len(p):
+		stable = bool((p.get('nonce') or b'').replace(b'"', b''))      # (without a usable nonce the library draws a random one for every composition)
+		if pt is not None and len(pt) == len(p) and stable:
 			try:
 				wt = bytes(Authorization('Digest', pt))
 			except Exception as e:
@@ -373,7 +374,7 @@ def oracle(case):
 			e2 = Authorization('Digest', e1.params)
 			e2.params['nonce'] = (p.get('nonce') or b'') + b'-other'
 			e2.params['password'] = b'another password'
-			if bytes(e1) != w:
+			if bytes(e1) != w and stable:
 				return {'what': 'changing an element built from the parameters of another changed that other: it now composes %r, before %r' % (bytes(e1)[:120], w[:120]), 'params': describe(case)[1], 'finding': None}
 		except Exception as e:
 			return {'what': 'building an element from the parameters of another raised %s: %s' % (exc_name(e), e), 'params': describe(case)[1], 'finding': None}
